@@ -1,5 +1,18 @@
-(* C08 — placeholder until the engine theorems are added below. *)
-From WF Require Import model.Base model.EngineBase model.Engine.
-Theorem C08_emit_dead_silent : forall t s, o_dead s = true -> emit t s = (Ok tt, s).
-Proof. intros t s H. unfold emit. now rewrite H. Qed.
-Print Assumptions C08_emit_dead_silent.
+(* C08 — paused and cancelled runs are left alone. Property theorems only (quantification as in C16.v). *)
+From WF Require Import model.Base model.RunState model.Graph model.EngineBase model.Engine model.Monitors
+  proofs.EngineTokens proofs.EngineProps.
+
+(* no step, callback or timeout function is invoked while the run's persisted state is Paused, Cancelled,
+   RequestedDataDeleted or DataDeleted *)
+Theorem C08_no_invocation_while_stopped : forall c ops, hist_ok ops -> forall u view pers now planned,
+  In (TUser u view pers now planned) (trace_of c ops) -> is_step_fn u = true ->
+  exists p, pers = Some p /\ rs_stopped (r_state p) = false /\ r_obj view = r_obj p /\ r_ver view = r_ver p /\
+            r_status view = r_status p /\ r_run view = r_run p.
+Proof. exact p_fresh_view. Qed.
+Print Assumptions C08_no_invocation_while_stopped.
+
+(* while a run is stopped every write keeps its status, and its object but for the data-deletion rewrite *)
+Theorem C08_stopped_frozen : forall c ops, hist_ok ops -> forall p r a, In (TStore (Some p) r a) (trace_of c ops) ->
+  rs_stopped (r_state p) = true -> r_status r = r_status p /\ (r_obj r = r_obj p \/ r_state r = RSDataDeleted).
+Proof. exact p_stopped_frozen. Qed.
+Print Assumptions C08_stopped_frozen.
